@@ -33,6 +33,9 @@ func init() {
 }
 
 func runC11(c *an.Ctx) {
+	// ---- R8: the safe-browsing filters are consulted unless the profile's own rules allow the host
+	c.Floor("C11-R8", 1)
+	c.Borrow("C11-R8", runC02, func(o an.Obligation) bool { return o.Rule == "C02-R2" })
 	c.Floor("C11-R1", 2)
 	c.Floor("C11-R2", 1)
 	c.Floor("C11-R3", 1)
